@@ -14,7 +14,7 @@ def jobs_for(registry_factory, quals=None, tier='quick', **kw):
         if not c.verify:
             continue
         for case in c.cases:
-            opts = dict(tier=tier, proof_timeout_ms=15000 if tier == 'quick' else 60000,
+            opts = dict(tier=tier, proof_timeout_ms=40000 if tier == 'quick' else 120000,
                         scopes=((3, 3),) if tier == 'quick' else ((2, 2), (3, 3), (4, 3)))
             opts.update(kw)
             jobs.append(((q, case.name, registry_factory), opts))
